@@ -504,6 +504,16 @@ func eqDeep(i *interpreter, t types.Type, x, y value) *Term {
 		return And(cs...)
 	case *types.Slice:
 		xs, ys := x.([]value), y.([]value)
+		// the pseudo-element of big.Int.Bytes() stands for a whole byte string
+		if xb, ok := soleBigBytes(xs); ok {
+			if yb, ok := soleBigBytes(ys); ok {
+				return Eq(xb.T, yb.T)
+			}
+			return bigBytesEqConcrete(xb, ys)
+		}
+		if yb, ok := soleBigBytes(ys); ok {
+			return bigBytesEqConcrete(yb, xs)
+		}
 		if len(xs) != len(ys) {
 			return FalseT
 		}
@@ -529,4 +539,26 @@ func eqDeep(i *interpreter, t types.Type, x, y value) *Term {
 		return And(cs...)
 	}
 	return eqTerm(i, t, x, y)
+}
+
+func soleBigBytes(s []value) (bigBytes, bool) {
+	if len(s) == 1 {
+		b, ok := s[0].(bigBytes)
+		return b, ok
+	}
+	return bigBytes{}, false
+}
+
+// bigBytesEqConcrete: the big-endian magnitude of a positive integer equals a
+// concrete byte string iff the string is non-empty, has no leading zero and
+// spells the integer.
+func bigBytesEqConcrete(b bigBytes, s []value) *Term {
+	raw, ok := bytesOfValue(s)
+	if !ok {
+		panic(abortPath{"unsupported", "equality of big.Int.Bytes() with partly symbolic bytes"})
+	}
+	if len(raw) == 0 || raw[0] == 0 {
+		return FalseT
+	}
+	return Eq(b.T, IntConst(new(big.Int).SetBytes(raw)))
 }
